@@ -18,7 +18,15 @@ def run_one(name, extra):
     d = os.path.join(S, name)
     pid = name.split("-")[0]
     ids = [pid] + [e for e in extra if e != pid]
-    r = subprocess.run([sys.executable, "-m", "tools.mutant", os.path.join(d, "patch.diff")] + ids, cwd=V,
+    # the seed was written against the pinned commit; where a later fix: commit touched the same
+    # lines, the hand-rebased equivalent (same regression, on the repaired code) is used instead
+    patch = os.path.join(d, "patch.diff")
+    used = "patch.diff"
+    if subprocess.run(["git", "-C", "/repo", "apply", "--check", patch], stdout=subprocess.DEVNULL, stderr=subprocess.DEVNULL).returncode != 0:
+        rb = os.path.join(d, "patch.rebased-on-fixes.diff")
+        if os.path.exists(rb):
+            patch, used = rb, "patch.rebased-on-fixes.diff"
+    r = subprocess.run([sys.executable, "-m", "tools.mutant", patch] + ids, cwd=V,
                        stdout=subprocess.PIPE, stderr=subprocess.STDOUT, text=True)
     out = r.stdout
     res = {}
@@ -44,6 +52,8 @@ def run_one(name, extra):
             r_["verdict"] = "error(exit %s)" % r_["exit"]
     if not res:
         res = {pid: {"exit": None, "verdict": "error", "log": out[-1500:]}}
+    for r_ in res.values():
+        r_["patch_used"] = used
     return name, res
 
 
@@ -80,7 +90,8 @@ def main():
         if os.path.exists(mp):
             meta = json.load(open(mp))
         need = str(meta.get("needs_to_manifest") or meta.get("what_it_needs_to_manifest") or "")[:160].replace("|", "/").replace("\n", " ")
-        verd = ", ".join("%s: %s" % (k, v.get("verdict")) for k, v in sorted(results[name].items()))
+        verd = ", ".join("%s: %s%s" % (k, v.get("verdict"), " (rebased patch)" if v.get("patch_used", "patch.diff") != "patch.diff" else "")
+                         for k, v in sorted(results[name].items()))
         lines.append("| %s | %s | %s | %s |" % (name, meta.get("breaks_property", name.split("-")[0]), need, verd))
     with open(os.path.join(S, "RESULTS.md"), "w") as f:
         f.write("\n".join(lines) + "\n")
